@@ -1,0 +1,27 @@
+//go:build verif
+
+// Contracts for compaction (C12, C11); comment-only, read by /verif/govc, never compiled into olric.
+//
+// Scans find tables through tablesByCoefficient, so a table that still holds entries must stay registered under
+// its coefficient. A recycled table is unregistered when it is reset (evictTable) and its coefficient is zero from
+// then on; dropping it later must not touch the registration of any other table.
+
+package kvstore
+
+//@ import table "github.com/olric-data/olric/internal/kvstore/table"
+
+//@ func (k *KVStore) Compaction() (bool, error)
+//@   props C12 C11
+//@   requires #shape: k != nil && k.tablesByCoefficient != nil && off(k.tables) == 0 && (forall i int {k.tables[i]} :: 0 <= i && i < len(k.tables) ==> k.tables[i] != nil && k.tables[i].inv())
+//@   ensures #dropping_an_idle_table_keeps_live_tables_registered [C12 C11]: result.0 ==> forall c uint64 {c in k.tablesByCoefficient} ::
+//@                old(c in k.tablesByCoefficient) && old(k.tablesByCoefficient[c]) != nil && old(k.tablesByCoefficient[c].state) != table.RecycledState ==>
+//@                (c in k.tablesByCoefficient) && k.tablesByCoefficient[c] == old(k.tablesByCoefficient[c])
+//@   ensures #states_kept [C12 C11]: result.0 ==> forall t *table.Table {t.state} :: t.state == old(t.state)
+//@   loop 0 invariant #nothing_yet: len(k.tables) == old(len(k.tables)) && off(k.tables) == 0 && (forall i int {k.tables[i]} :: 0 <= i && i < len(k.tables) ==> k.tables[i] != nil && k.tables[i].inv()) &&
+//@                (forall c uint64 {c in k.tablesByCoefficient} :: (c in k.tablesByCoefficient) == old(c in k.tablesByCoefficient) && k.tablesByCoefficient[c] == old(k.tablesByCoefficient[c])) &&
+//@                (forall t *table.Table {t.state} :: t.state == old(t.state))
+//@   loop 1 invariant #bounds: 0 <= i && i <= len(k.tables) && off(k.tables) == 0
+//@   loop 1 invariant #tables_ok: forall j int {k.tables[j]} :: 0 <= j && j < len(k.tables) ==> k.tables[j] != nil && k.tables[j].inv()
+//@   loop 1 invariant #states: forall t *table.Table {t.state} :: t.state == old(t.state)
+//@   loop 1 invariant #live_tables_registered [C12 C11]: forall c uint64 {c in k.tablesByCoefficient} :: old(c in k.tablesByCoefficient) && old(k.tablesByCoefficient[c]) != nil && old(k.tablesByCoefficient[c].state) != table.RecycledState ==>
+//@                (c in k.tablesByCoefficient) && k.tablesByCoefficient[c] == old(k.tablesByCoefficient[c])
